@@ -67,6 +67,17 @@ func run(r *hx.Run) error {
 			}
 		}
 	}
+	// sessions of the sequential main goroutine (Suspend / Resume / Close), with the reply to the
+	// shutdown DA1 query arriving at every point relative to the close signal (gate 0: at once,
+	// 1: consumed before the write returns — slow tty, 2: late)
+	for _, ops := range []string{"C", "SC", "SRC", "SRS", "SRSRC", "SRSRSRC"} {
+		for gate := 0; gate < 3; gate++ {
+			op := fmt.Sprintf("cycles seed=%d ops=%s gate=%d keys=%d q=0", h.rng.Intn(1<<30), ops, gate, (gate+len(ops))%4)
+			r.Case("cyc-" + ops + fmt.Sprint(gate))
+			res, _ := h.replayOp(strings.Fields(op))
+			r.Emit(op, res)
+		}
+	}
 	n := 60
 	if r.Thorough {
 		n = 400
@@ -85,6 +96,12 @@ func run(r *hx.Run) error {
 			r.Emit(op, res)
 		case i%10 == 9:
 			op := fmt.Sprintf("dblclose seed=%d n=%d", rng.Intn(1<<30), rng.Range(2, 3))
+			res, _ := h.replayOp(strings.Fields(op))
+			r.Emit(op, res)
+		case i%10 == 6:
+			k := rng.Range(0, 4)
+			ops := strings.Repeat("SR", k) + gen.Pick(rng, []string{"C", "S", "SC", "SRC"})
+			op := fmt.Sprintf("cycles seed=%d ops=%s gate=%d keys=%d q=%d", rng.Intn(1<<30), ops, rng.Intn(3), rng.Range(0, 6), gen.Pick(rng, []int{0, 0, 16}))
 			res, _ := h.replayOp(strings.Fields(op))
 			r.Emit(op, res)
 		case i%10 >= 4:
@@ -142,6 +159,16 @@ func (h *H) replayOp(f []string) (string, bool) {
 	case "sigclose":
 		res := sigCloseCase(uint64(m["seed"]), m["keys"])
 		count("sigclose:" + strings.Fields(res)[0])
+		return res, true
+	case "cycles":
+		ops := ""
+		for _, x := range f[1:] {
+			if strings.HasPrefix(x, "ops=") {
+				ops = x[4:]
+			}
+		}
+		res := cyclesCase(uint64(m["seed"]), ops, m["gate"], m["keys"], m["q"])
+		count(fmt.Sprintf("cycles:gate%d:%s", m["gate"], ops))
 		return res, true
 	case "dblclose":
 		res := dblCloseCase(uint64(m["seed"]), m["n"])
@@ -478,6 +505,155 @@ func suspendCase(seed uint64, posters, m, cycles, q int) string {
 		out += " leaked=" + strings.ReplaceAll(leakedFuncs(), " ", "_")
 	}
 	return out
+}
+
+// ---------- sessions: Suspend / Resume / Close by a sequential main goroutine ----------
+
+// tty wraps the fake console so that it behaves like a terminal device where it matters for
+// shutdown: Close does not wake a reader blocked in Read (that is why Suspend has its DA1 dance),
+// and the reply to the shutdown DA1 query can be made to arrive early (consumed before the write
+// returns), at once, or late.
+type tty struct {
+	*fakeconsole.Console
+	gate   int32 // 0 at once, 1 consumed before Write returns, 2 late
+	armed  int32 // gates apply to DA1 queries written after start-up
+	closes int32
+}
+
+func (t *tty) Close() error { atomic.AddInt32(&t.closes, 1); return nil }
+
+func (t *tty) Write(p []byte) (int, error) {
+	if atomic.LoadInt32(&t.armed) == 0 || !bytes.Contains(p, []byte("\x1b[c")) {
+		return t.Console.Write(p)
+	}
+	switch atomic.LoadInt32(&t.gate) {
+	case 1:
+		n, err := t.Console.Write(p) // the reply is queued and the reader woken
+		deadline := time.Now().Add(300 * time.Millisecond)
+		for time.Now().Before(deadline) {
+			d := stackDump()
+			if countIn(d, "ansi.(*Parser).run", "") == 0 {
+				break // the parser has exited
+			}
+			if t.Console.Pending() == 0 && countIn(d, "ansi.(*Parser).run", "sync.(*Cond).Wait") > 0 {
+				break // the reply has been consumed and the reader blocks again
+			}
+			time.Sleep(200 * time.Microsecond)
+		}
+		return n, err
+	case 2:
+		t.Console.Silent = true
+		n, err := t.Console.Write(p)
+		t.Console.Silent = false
+		go func() {
+			time.Sleep(2 * time.Millisecond)
+			t.Console.InjectString("\x1b[?62;22c")
+		}()
+		return n, err
+	}
+	return t.Console.Write(p)
+}
+
+// countIn counts the goroutines of a stack dump whose stack mentions a (and b, if not empty).
+func countIn(dump, a, b string) int {
+	n := 0
+	for _, g := range strings.Split(dump, "\n\n") {
+		if strings.Contains(g, a) && (b == "" || strings.Contains(g, b)) {
+			n++
+		}
+	}
+	return n
+}
+
+// libAlive waits (up to d) for the parser goroutine and the input goroutine to be gone.
+func libAlive(baseP, baseI int, d time.Duration) bool {
+	deadline := time.Now().Add(d)
+	for {
+		dump := stackDump()
+		if countIn(dump, "ansi.(*Parser).run", "") <= baseP && countIn(dump, "(*Vaxis).openTty.func1", "") <= baseI {
+			return false
+		}
+		if time.Now().After(deadline) {
+			return true
+		}
+		time.Sleep(time.Millisecond)
+	}
+}
+
+func cyclesCase(seed uint64, ops string, gate, keys, q int) string {
+	dump := stackDump()
+	baseP, baseI := countIn(dump, "ansi.(*Parser).run", ""), countIn(dump, "(*Vaxis).openTty.func1", "")
+	t := &tty{Console: fakeconsole.New(80, 24, fakeconsole.FromMask(0)), gate: int32(gate)}
+	vx, err := vaxis.New(vaxis.Options{WithConsole: t, NoSignals: true, EventQueueSize: q})
+	if err != nil {
+		return "error-new"
+	}
+	atomic.StoreInt32(&t.armed, 1)
+	stop := make(chan struct{})
+	cdone := make(chan struct{})
+	go func() {
+		defer close(cdone)
+		for {
+			select {
+			case <-vx.Events():
+			case <-stop:
+				return
+			}
+		}
+	}()
+	t.InjectString(strings.Repeat("k", keys))
+	var obs []string
+	for _, op := range ops {
+		var ok bool
+		var pm string
+		switch op {
+		case 'S':
+			ok, pm = withBound(func() { vx.Suspend() })
+		case 'R':
+			ok, pm = withBound(func() { vx.Resume() })
+		case 'C':
+			ok, pm = withBound(vx.Close)
+		}
+		if op == 'R' {
+			if !ok || pm != "" {
+				obs = append(obs, "R:fail")
+				break
+			}
+			obs = append(obs, "R")
+			continue
+		}
+		o := string(op) + ":"
+		switch {
+		case pm != "":
+			o += "panic"
+		case ok:
+			o += "ret"
+		default:
+			o += "hang"
+		}
+		if ok && pm == "" {
+			if libAlive(baseP, baseI, 300*time.Millisecond) {
+				o += ",alive"
+			} else {
+				o += ",done"
+			}
+		} else {
+			o += ",alive"
+		}
+		obs = append(obs, o)
+		if !ok || pm != "" {
+			break
+		}
+	}
+	// release whatever is left (a real Close on the fake console wakes its readers)
+	t.Console.Close()
+	close(stop)
+	select {
+	case <-cdone:
+	case <-time.After(bound):
+	}
+	libAlive(baseP, baseI, 500*time.Millisecond)
+	return strings.Join(obs, " ")
 }
 
 // ---------- F53: Close with a full queue and pending input ----------
